@@ -1,4 +1,7 @@
 import A816.Proofs.Cpu
+import A816.Proofs.ParseOpcode
+import A816.Model.Nodes
+import A816.Model.OpsParse
 import A816.Gen.Tables
 import A816.Spec.Supported
 /-!
@@ -14,6 +17,12 @@ import A816.Spec.Supported
   followed by the value truncated to that width, little-endian, and nothing else.  Contrapositive:
   a combination the ISA does not define is rejected.
 * `supported_kept`: every combination of the frozen supported set still assembles.
+* `C01_parse_shape` / `C01_parse_naked`: the *parser model* reads every accepted operand shape — written around the
+  printout of any expression tree, with or without a size suffix and an outer index register — as the instruction
+  with exactly the addressing mode and index `modeOfSyntax` gives for the shape; `C01_emit_is_encode` /
+  `C01_node_sound`: the bytes the *emission pass* produces for that instruction node are those of `encodeInstr`,
+  hence the ISA encoding.  Together: the statements above are about what the pipeline model does with a source
+  instruction, not only about the decision table.
 -/
 namespace A816.C01
 open A816 Spec
@@ -356,5 +365,149 @@ theorem supported_kept (s : Supported) (hs : s ∈ Spec.supported) (hrel : s.rel
             List.cons.injEq, and_true, e]
           refine ⟨?_, ?_, ?_⟩ <;> first | trivial | omega
       simp [hev]
+
+/-! ## from tokens to bytes: the parser and the emission pass implement the decision table -/
+
+open ParseOp Classify in
+/-- **the parser reads every accepted shape as the table says** (see `Proofs/ParseOpcode.lean`): for every parser
+    configuration, expression tree `e`, operand shape `syn` the decision table accepts, optional size suffix and
+    parser state whose tokens from the current position on spell
+    `mnemonic [.size] shape(e) [,index]`, `parse_opcode` returns the instruction with the mode and index register of
+    `modeOfSyntax`, the written size, and the node list of `e` as operand, and stops right behind it. -/
+theorem C01_parse_shape (cfg : ParseCfg) (syn : Syntax) (e : Expr) (fuel : Nat) (st : PState)
+    (ks : Nat) (size : Option String)
+    (hopc : (tokAt st st.pos).ty = .OPCODE) (hoperand : syn.operand = true)
+    (hsize : (ks = 1 ∧ (tokAt st (st.pos + 1)).ty = .OPCODE_SIZE ∧ size = some (asciiLower (tokAt st (st.pos + 1)).val)) ∨
+             (ks = 0 ∧ (tokAt st (st.pos + 1)).ty ≠ .OPCODE_SIZE ∧ size = none))
+    (hsp : Spells st (st.pos + (1 + ks)) (operandPieces syn (printNodes e) ++ idxPiece syn.outer))
+    (hfollow : (tokAt st (st.pos + (1 + ks) + pwidth (operandPieces syn (printNodes e) ++ idxPiece syn.outer))).ty ≠ .OPERATOR)
+    (hnoidx : syn.outer = none →
+      (tokAt st (st.pos + (1 + ks) + pwidth (operandPieces syn (printNodes e)))).ty ≠ .ADDRESSING_MODE_INDEX)
+    (hplain : syn.imm = false → syn.bracket = .none → (tokAt st (st.pos + (1 + ks))).ty ≠ .LPAREN)
+    (hfuel : (printNodes e).length + 1 < fuel)
+    (mode : AddrMode) (idx : Option Idx) (hmode : modeOfSyntax cfg.indexMap syn = .ok (mode, idx)) :
+    ∃ first, parseOpcode cfg (fuel + 1) st =
+      .ok (.opcode mode (tokAt st st.pos).val (sizeOfSuffix size) (some ⟨printNodes e, first⟩) idx (tokAt st st.pos),
+           adv st (1 + ks + pwidth (operandPieces syn (printNodes e) ++ idxPiece syn.outer))) :=
+  parseOpcode_shape cfg syn e fuel st ks size hopc hoperand hsize hsp hfollow hnoidx hplain hfuel mode idx hmode
+
+open ParseOp Classify in
+/-- a mnemonic standing alone (no `#`, bracket or index after it) is the implied / accumulator form -/
+theorem C01_parse_naked (cfg : ParseCfg) (fuel : Nat) (st : PState)
+    (hopc : (tokAt st st.pos).ty = .OPCODE_NAKED)
+    (h0 : (tokAt st (st.pos + 1)).ty ≠ .OPCODE_SIZE) (h1 : (tokAt st (st.pos + 1)).ty ≠ .SHARP)
+    (h2 : (tokAt st (st.pos + 1)).ty ≠ .LPAREN) (h3 : (tokAt st (st.pos + 1)).ty ≠ .LBRAKET)
+    (h4 : (tokAt st (st.pos + 1)).ty ≠ .ADDRESSING_MODE_INDEX) :
+    parseOpcode cfg (fuel + 1 + 1) st =
+      .ok (.opcode .none (tokAt st st.pos).val none none none (tokAt st st.pos), adv st 1) ∧
+    modeOfSyntax cfg.indexMap ⟨false, false, .none, none, none⟩ = .ok (.none, none) := by
+  refine ⟨?_, rfl⟩
+  have hm0 : (if ((tokAt st st.pos).ty == TokTy.OPCODE_NAKED) = true then AddrMode.none else AddrMode.direct) = AddrMode.none := by
+    rw [hopc]; rfl
+  have hne : (tokAt st st.pos).ty ≠ .OPCODE := by rw [hopc]; intro h; cases h
+  have hop := parseOperand_none cfg fuel .none (tokAt st st.pos) st 1 hne h1 h2 h3
+  have := parseOpcode_spec cfg (fuel + 1) st 0 none (Or.inr ⟨rfl, h0, rfl⟩) .none none none 0
+    (by rw [hm0]; exact hop) .none none 0 (Or.inr ⟨rfl, h4, rfl, rfl⟩)
+  rw [this]
+  rfl
+
+/-- **the emission pass encodes as `encodeInstr` does**: for an instruction node whose mode and index are the
+    decision table's reading of its written shape, whatever the emission pass emits (for the non-branch kinds) is what
+    `encodeInstr` gives for the mnemonic, shape, suffix and operand value. -/
+theorem C01_emit_is_encode (env : Env) (im : List (AddrMode × AddrMode)) (mn : String) (syn : Syntax) (size : Option Nat)
+    (mode : AddrMode) (idx : Option Idx) (hm : modeOfSyntax im syn = .ok (mode, idx)) (hoperand : syn.operand = true)
+    (ve : PExpr) (info : Tok) (r r' : Resolver) (v : Int) (hv : getValue env r ve info = .ok v) (bs : List Nat)
+    (hrel : ∀ e, findEmitter env.opcodes mn mode idx = .ok e → e.kind ≠ .relative)
+    (h : emitNode env (.opcode mn size mode idx (some ve) info) r = .ok (r', bs)) :
+    encodeInstr env.opcodes im mn syn size v = .ok bs := by
+  unfold encodeInstr
+  simp only [hm, hoperand, ↓reduceIte]
+  simp only [emitNode] at h
+  cases hf : findEmitter env.opcodes mn mode idx with
+  | error er =>
+    exfalso
+    simp only [opcodeEmitter, hf] at h
+    cases er <;> simp at h
+  | ok e =>
+    have hoe : opcodeEmitter env mn mode idx info = .ok e := by unfold opcodeEmitter; rw [hf]
+    simp only [hoe] at h ⊢
+    cases hk : e.kind with
+    | relative => exact absurd hk (hrel e hf)
+    | implied =>
+      simp only [hk] at h
+      cases hb : emitEntry e size none with
+      | error er => simp [hb, Except.map] at h
+      | ok b =>
+        simp only [hb, Except.map, Except.ok.injEq, Prod.mk.injEq] at h
+        rw [← h.2]
+        unfold emitEntry at hb ⊢
+        simp only [hk] at hb ⊢
+        exact hb
+    | sized =>
+      simp only [hk] at h
+      have key : ∀ (x : Except Err (List Nat)),
+          (match x with
+            | .error (.node msg _) => Except.error (nodeErr msg info)
+            | .error er => Except.error er
+            | .ok b => Except.ok (r, b)) = Except.ok (r', bs) → x = .ok bs := by
+        intro x hx
+        cases x with
+        | error er => cases er <;> simp at hx
+        | ok b => simp only [Except.ok.injEq, Prod.mk.injEq] at hx; rw [hx.2]
+      cases size with
+      | none =>
+        simp only [Bool.false_eq_true, ↓reduceIte, hv] at h
+        exact key _ h
+      | some w =>
+        simp only at h
+        by_cases hb : (opcodeByte e w).isNone = true
+        · simp [hb] at h
+        · simp only [hb, Bool.false_eq_true, ↓reduceIte, hv] at h
+          exact key _ h
+
+/-- **instruction nodes encode as the ISA defines**: `C01_sound` read on the emission pass — whatever bytes are
+    emitted for an instruction node (non-branch) whose mode / index are the table's reading of shape `syn` are the
+    ISA opcode for that mnemonic in the shape `syn` denotes at the ruled width, followed by the truncated operand. -/
+theorem C01_node_sound (prec : PrecTable) (mn : String) (syn : Syntax) (size : Option Nat)
+    (mode : AddrMode) (idx : Option Idx) (hm : modeOfSyntax Gen.indexMap syn = .ok (mode, idx)) (hoperand : syn.operand = true)
+    (ve : PExpr) (info : Tok) (r r' : Resolver) (v : Int) (hv : getValue ⟨prec, Gen.opcodeTable⟩ r ve info = .ok v) (bs : List Nat)
+    (hrel : ∀ e, findEmitter Gen.opcodeTable mn mode idx = .ok e → e.kind ≠ .relative)
+    (hsfx : size = none ∨ size = some 1 ∨ size = some 2 ∨ size = some 3) (hpos : size = none → 0 ≤ v)
+    (h : emitNode ⟨prec, Gen.opcodeTable⟩ (.opcode mn size mode idx (some ve) info) r = .ok (r', bs)) :
+    ∃ w sh op, shapeOf mn syn w = some sh ∧ isaFor mn sh = some op ∧ widthRule size v w ∧
+      bs = op :: leBytes w (v % ((256 ^ w : Nat) : Int)).toNat := by
+  have henc := C01_emit_is_encode ⟨prec, Gen.opcodeTable⟩ Gen.indexMap mn syn size mode idx hm hoperand ve info r r' v hv bs hrel h
+  obtain ⟨w, sh, op, h1, h2, h3⟩ := C01_sound mn syn size v bs (fun hf => by rw [hoperand] at hf; cases hf) hsfx hpos henc
+  rcases h3 with ⟨hf, _⟩ | ⟨_, hw, hb⟩
+  · rw [hoperand] at hf; cases hf
+  · exact ⟨w, sh, op, h1, h2, hw, hb⟩
+
+/-! non-vacuity: `lda.w (0x10,s),y` as the scanner tokenises it meets the hypotheses of `C01_parse_shape`, and the
+    decision table reads that shape as stack-relative indirect indexed -/
+section
+open ParseOp Classify
+private def tk (ty : TokTy) (v : String) : Tok := { eofTok with ty := ty, val := v }
+private def stEx : PState :=
+  { (default : PState) with
+    toks := #[tk .OPCODE "lda", tk .OPCODE_SIZE "W", tk .LPAREN "(", tk .NUMBER "0x10", tk .ADDRESSING_MODE_INDEX "s",
+              tk .RPAREN ")", tk .ADDRESSING_MODE_INDEX "Y", tk .EOF ""], pos := 0 }
+private def synEx : Syntax := ⟨true, false, .paren, some .s, some .y⟩
+private def eEx : Expr := .num ⟨.hex, [(1, false), (0, false)]⟩
+
+example : ∃ first, parseOpcode Ops.genParseCfg 8 stEx =
+    .ok (.opcode .stack_indexed_indirect_indexed "lda" (some 2) (some ⟨printNodes eEx, first⟩) (some .y) (tk .OPCODE "lda"),
+         adv stEx 7) := by
+  have hm : modeOfSyntax Ops.genParseCfg.indexMap synEx = .ok (.stack_indexed_indirect_indexed, some .y) := by rfl
+  have hsp : Spells stEx (stEx.pos + (1 + 1)) (operandPieces synEx (printNodes eEx) ++ idxPiece synEx.outer) := by
+    refine ⟨by decide +kernel, ⟨?_, by decide +kernel, by decide +kernel, by decide +kernel, by decide +kernel, by decide +kernel, trivial⟩⟩
+    intro i hi
+    have hi' : i < 1 := hi
+    match i, hi' with
+    | 0, _ => decide +kernel +revert
+  have := C01_parse_shape Ops.genParseCfg synEx eEx 7 stEx 1 (some "w") (by decide +kernel) rfl
+    (Or.inl ⟨rfl, by decide +kernel, by decide +kernel⟩) hsp (by decide +kernel) (fun h => by cases h) (fun _ h => by cases h)
+    (by decide +kernel) _ _ hm
+  exact this
+end
 
 end A816.C01
